@@ -1,4 +1,4 @@
-"""Child interpreter for C17's inertness exploration (run as `/venv/bin/python -I -S c17_child.py SCRIPT SAFE_CSV`).
+"""Child interpreter for C17's inertness exploration (run as `/venv/bin/python -I c17_child.py SCRIPT SAFE_CSV`).
 
 Compiles SCRIPT exactly as CPython would (bytes -> PEP 263 decoding), installs an audit hook that
 records AND vetoes dangerous events, then executes the code object as __main__ with sys.path[0] set to
